@@ -39,6 +39,16 @@ Definition connect_unary_validate (status : N) (encoding_known : bool) (j : jwir
        | None => Some (connect_http_to_code status)
        end.
 
+(* duplexHTTPCall.makeRequest: the body of a 101 response is the connection itself (no context
+   governs it); it is closed and an empty body is published in its place - and an empty body
+   is not a JSON error *)
+Definition body_as_published (status : N) (j : jwire) : jwire :=
+  if status =? 101 then JInvalid else j.
+
+Lemma switching_protocols_code_from_status_lemma : forall enc j,
+  connect_unary_validate 101 enc (body_as_published 101 j) = Some (connect_http_to_code 101).
+Proof. intros enc j. unfold connect_unary_validate, body_as_published. destruct enc; reflexivity. Qed.
+
 (* connectStreamingClientConn.validateResponse *)
 Definition connect_stream_validate (status : N) (encoding_known : bool) : option N :=
   if negb (status =? 200) then Some (connect_http_to_code status)
